@@ -49,3 +49,84 @@ UNITS = [
     Unit('C01_predicates', ('C01', 'C11', 'C15'), [is_symmetric], use=[is_square], types=core.TYPES, type_spec=core.TYPE_SPEC, spec=SPEC, preludes=PRE, broadcast=BC, level='L1',
          notes='slice-level symmetry predicate answers per its definition with the code\'s epsilon (routing of the solvers rests on it)'),
 ]
+
+# ---------------------------------------------------------------- pivoted LU (slice level)
+LUP = 'linalg::decomposition::lu::'
+LU_SPEC = r'''
+/// multipliers of the columns < j are bounded by 1 in magnitude (property C11)
+pub open spec fn bounded(lu: Seq<f64>, n: int, j: int) -> bool {
+    forall|r: int, c: int| 0 <= c < j && c < r < n ==> r_abs(rv(#[trigger] at2(lu, n, r, c))) <= 1real
+}
+/// |lu[r,j]| <= |lu[p,j]| for r in lo..hi
+pub open spec fn colmax(lu: Seq<f64>, n: int, j: int, p: int, lo: int, hi: int) -> bool {
+    forall|r: int| lo <= r < hi ==> r_abs(rv(#[trigger] at2(lu, n, r, j))) <= r_abs(rv(at2(lu, n, p, j)))
+}
+/// pivots is a permutation of 0..n
+pub open spec fn is_perm32(p: Seq<i32>, n: int) -> bool {
+    &&& p.len() == n
+    &&& forall|i: int| 0 <= i < n ==> 0 <= #[trigger] p[i] < n
+    &&& forall|i: int, k: int| 0 <= i < k < n ==> #[trigger] p[i] != #[trigger] p[k]
+}
+pub proof fn lemma_perm32_swap(p: Seq<i32>, n: int, a: int, b: int) requires is_perm32(p, n), 0 <= a < n, 0 <= b < n
+    ensures is_perm32(p.update(a, p[b]).update(b, p[a]), n)
+{
+    let q = p.update(a, p[b]).update(b, p[a]);
+    assert forall|i: int, k: int| 0 <= i < k < n implies #[trigger] q[i] != #[trigger] q[k] by {
+        let pi = if i == b { a } else if i == a { b } else { i };
+        let pk = if k == b { a } else if k == a { b } else { k };
+        assert(q[i] == p[pi]); assert(q[k] == p[pk]);
+        if pi < pk { assert(p[pi] != p[pk]); } else { assert(pk < pi); assert(p[pk] != p[pi]); }
+    }
+}
+'''
+LU_NRA = [Lemma('nra_quot_bounded', 'x p ax ap q', ['(distinct p 0)', '(= q (/ x p))', '(or (= ax x) (= ax (- x)))', '(>= ax 0)', '(or (= ap p) (= ap (- p)))', '(>= ap 0)', '(<= ax ap)'],
+                ['(<= q 1)', '(>= q (- 1))'])]
+UNWRAP_SQM = ('is_square(matrix).unwrap()', 'match is_square(matrix) { Ok(v_) => v_, Err(_) => ::core::panicking::panic("unwrap") }',
+              'R2b: Result::unwrap is this match by definition; its panic is a REJECT site')
+LUV = 'exists|k: int| 0 <= k && #[trigger] (k * k) == matrix@.len()'
+FRAME = ('assert forall|r: int, c: int| 0 <= r < n && 0 <= c < n && !(r == {R} && c == {C}) implies #[trigger] at2(lu@, n as int, r, c) == at2(pre_lu, n as int, r, c) by '
+         '{{ lemma_idx(r, c, n as int, n as int); if r * n + c == {R} * n + {C} {{ lemma_idx_inj(r, c, {R} as int, {C} as int, n as int); }} }}')
+lu = Fn(LUP + 'lu', ret='r', level='L1', valid=LUV, panics={1: 'REJECT'}, rewrites=[UNWRAP_SQM], attrs=['#[verifier::loop_isolation(false)]'],
+        requires=['C11.machine:: matrix@.len() <= 0x7fff_ffff'],
+        ensures=['C11.lu.valid:: ' + LUV,
+                 'C11.lu.shape:: r.0@.len() == matrix@.len()',
+                 'C11.lu.permutation:: forall|n: int| 0 <= n && n * n == matrix@.len() ==> is_perm32(r.1@, n)',
+                 'C11.lu.l_bounded:: forall|n: int| 0 <= n && n * n == matrix@.len() ==> bounded(r.0@, n, n)'],
+        closures={1: {'params': 'x: usize', 'ret': 'o: i32', 'requires': ['x < n', 'n <= 0x7fff_ffff'], 'ensures': ['o == x']}},
+        loops={
+            1: {'invariant': ['lu@.len() == n * n', 'n * n == matrix@.len()', 'C11.lu.perm.inv:: is_perm32(pivots@, n as int)', 'C11.lu.bounded.inv:: bounded(lu@, n as int, j as int)']},
+            2: {'invariant': ['lu@.len() == n * n', '0 <= j < n', 'C11.lu.bounded.i:: bounded(lu@, n as int, j as int)', 'is_perm32(pivots@, n as int)']},
+            3: {'invariant': ['lu@.len() == n * n', '0 <= j < n', '0 <= i < n', 'bounded(lu@, n as int, j as int)'],
+                'body_start': 'lemma_idx(i as int, k as int, n as int, n as int); lemma_idx(k as int, j as int, n as int, n as int);'},
+            4: {'invariant': ['lu@.len() == n * n', '0 <= j < n', 'j <= p < n', 'bounded(lu@, n as int, j as int)', 'C11.lu.pivot_max:: colmax(lu@, n as int, j as int, p as int, j as int, i as int)'],
+                'body_start': 'lemma_idx(i as int, j as int, n as int, n as int); lemma_idx(p as int, j as int, n as int, n as int);'},
+            5: {'invariant': ['lu@.len() == n * n', '0 <= j < p < n', 'C11.lu.bounded.swap:: bounded(lu@, n as int, j as int)',
+                              'k <= j ==> colmax(lu@, n as int, j as int, p as int, j as int, n as int)',
+                              'k > j ==> colmax(lu@, n as int, j as int, j as int, j as int, n as int)'],
+                'body_ghost': 'let ghost pre_lu = lu@;',
+                'body_start': 'lemma_idx(p as int, k as int, n as int, n as int); lemma_idx(j as int, k as int, n as int, n as int);',
+                'body_end': ('assert forall|r: int, c: int| 0 <= r < n && 0 <= c < n implies #[trigger] at2(lu@, n as int, r, c) == (if c == k && r == p { at2(pre_lu, n as int, j as int, k as int) } else if c == k && r == j { at2(pre_lu, n as int, p as int, k as int) } else { at2(pre_lu, n as int, r, c) }) by '
+                             '{ lemma_idx(r, c, n as int, n as int); if r * n + c == p * n + k { lemma_idx_inj(r, c, p as int, k as int, n as int); } if r * n + c == j * n + k { lemma_idx_inj(r, c, j as int, k as int, n as int); } } '
+                             'assert(bounded(lu@, n as int, j as int)) by { assert forall|r: int, c: int| 0 <= c < j && c < r < n implies r_abs(rv(#[trigger] at2(lu@, n as int, r, c))) <= 1real by { assert(r_abs(rv(at2(pre_lu, n as int, r, c))) <= 1real); assert(r_abs(rv(at2(pre_lu, n as int, j as int, c))) <= 1real); assert(r_abs(rv(at2(pre_lu, n as int, p as int, c))) <= 1real); } } '
+                             'if k == j { assert forall|r: int| j <= r < n implies r_abs(rv(#[trigger] at2(lu@, n as int, r, j as int))) <= r_abs(rv(at2(lu@, n as int, j as int, j as int))) by { assert(r_abs(rv(at2(pre_lu, n as int, r, j as int))) <= r_abs(rv(at2(pre_lu, n as int, p as int, j as int)))); assert(r_abs(rv(at2(pre_lu, n as int, j as int, j as int))) <= r_abs(rv(at2(pre_lu, n as int, p as int, j as int)))); } } '
+                             'else { assert forall|r: int| j <= r < n implies #[trigger] at2(lu@, n as int, r, j as int) == at2(pre_lu, n as int, r, j as int) by { } }')},
+            6: {'invariant': ['lu@.len() == n * n', '0 <= j < n', 'rv(at2(lu@, n as int, j as int, j as int)) != 0real', 'bounded(lu@, n as int, j as int)',
+                              'C11.lu.col_done:: forall|r: int| j < r < i ==> r_abs(rv(#[trigger] at2(lu@, n as int, r, j as int))) <= 1real',
+                              'C11.lu.col_todo:: forall|r: int| i <= r < n ==> r_abs(rv(#[trigger] at2(lu@, n as int, r, j as int))) <= r_abs(rv(at2(lu@, n as int, j as int, j as int)))'],
+                'body_ghost': 'let ghost pre_lu = lu@;',
+                'body_start': 'lemma_idx(i as int, j as int, n as int, n as int); lemma_idx(j as int, j as int, n as int, n as int);',
+                'body_end': (FRAME.format(R='i', C='j') + ' let x_ = rv(at2(pre_lu, n as int, i as int, j as int)); let p_ = rv(at2(pre_lu, n as int, j as int, j as int)); '
+                             'assert(r_abs(x_) <= r_abs(p_)); nra_quot_bounded(x_, p_, r_abs(x_), r_abs(p_), x_ / p_); assert(rv(at2(lu@, n as int, i as int, j as int)) == x_ / p_); '
+                             'assert(bounded(lu@, n as int, j as int)) by { assert forall|r: int, c: int| 0 <= c < j && c < r < n implies r_abs(rv(#[trigger] at2(lu@, n as int, r, c))) <= 1real by { assert(r_abs(rv(at2(pre_lu, n as int, r, c))) <= 1real); } }')},
+        },
+        hints=[('let mut pivots: Vec<i32>', 'before', 'proof { assert(n <= 0x7fff_ffff) by(nonlinear_arith) requires n * n <= 0x7fff_ffff, n >= 0; }'),
+               ('for j in 0..n', 'before', 'proof { assert(lu@ =~= matrix@); assert(is_perm32(pivots@, n as int)); lemma_sq_unique(n as int, matrix@.len() as int); }'),
+               ('lu[i * n + j] = lu[i * n + j] - (s);', 'pre', 'let ghost pre_lu = lu@; proof { lemma_idx(i as int, j as int, n as int, n as int); }'),
+               ('lu[i * n + j] = lu[i * n + j] - (s);', 'post', 'proof { ' + FRAME.format(R='i', C='j') + ' assert(bounded(lu@, n as int, j as int)) by { assert forall|r: int, c: int| 0 <= c < j && c < r < n implies r_abs(rv(#[trigger] at2(lu@, n as int, r, c))) <= 1real by { assert(r_abs(rv(at2(pre_lu, n as int, r, c))) <= 1real); } } }'),
+               ('pivots.swap(p, j);', 'before', 'proof { lemma_perm32_swap(pivots@, n as int, p as int, j as int); }'),
+               ('if j < n && lu[j * n + j] != 0.', 'before', 'proof { lemma_idx(j as int, j as int, n as int, n as int); assert(colmax(lu@, n as int, j as int, j as int, j as int, n as int)); }'),
+               ])
+
+UNITS.append(Unit('C11_lu', ('C11', 'C01'), [lu], use=[is_square], types=core.TYPES, type_spec=core.TYPE_SPEC, spec=SPEC + LU_SPEC, nra=LU_NRA, preludes=PRE, broadcast=BC,
+                  level='L1', rlimit=300,
+                  notes='slice-level pivoted LU: pivots stay a permutation, the chosen pivot maximises |.| in its column so that every multiplier is bounded by 1'))
